@@ -168,7 +168,7 @@ type PathCtx struct {
 	Calls  *CallLog
 	Rep    *ConvReport
 	Writes []*engine.Value
-	Globals []string
+	Globals []*ssa.Global
 	Pre    engine.Value // deep snapshot of *target before the call (update methods)
 	SrcSnap engine.Value
 }
@@ -340,16 +340,19 @@ func (d *Driver) exploreOne(cv *Conv, check CheckFn, opt ExploreOpt) *ConvReport
 			}
 		}
 		if pc.TgtIdx >= 0 {
-			if tp, ok := pc.Args[pc.TgtIdx].(engine.Pointer); ok && tp.Slot != nil {
-				pc.Pre = DeepSnapshot(*tp.Slot)
+			tp, ok := pc.Args[pc.TgtIdx].(engine.Pointer)
+			if !ok || tp.Slot == nil {
+				// the update target is assumed to point to a struct
+				panic(&engine.Abort{Kind: "infeasible", Reason: "nil update target"})
 			}
+			pc.Pre = DeepSnapshot(*tp.Slot)
 		}
 		if opt.TrackWrites {
 			pc.SrcSnap = DeepSnapshot(pc.Src)
 			r.WriteHook = func(s *engine.Value) { pc.Writes = append(pc.Writes, s) }
 			r.GlobalHook = func(g *ssa.Global) {
 				if g != t.Global {
-					pc.Globals = append(pc.Globals, g.String())
+					pc.Globals = append(pc.Globals, g)
 				}
 			}
 		}
